@@ -259,6 +259,21 @@ func evalAPI(cs CaseAPI) Result {
 				}
 			}
 		}
+		// spans just below / at / above the URI length, at offset 0 and at an arbitrary offset
+		for _, off := range []int{0, cs.N1 % 60000} {
+			for d := -3; d <= 1; d++ {
+				l := len(a) + d
+				if l < 0 || off+l > 65535 {
+					continue
+				}
+				uc = u1
+				if uc.AdjustOffs(sipsp.PField{Offs: sipsp.OffsT(off), Len: sipsp.OffsT(l)}) {
+					if r := derefAll(&uc, off+l); r != "" {
+						return viol("AdjustOffs({%d,%d}) of %s returned true but %s", off, l, cs.A, r)
+					}
+				}
+			}
+		}
 		uc = u1
 		uc.Truncate()
 	}
